@@ -255,7 +255,7 @@ Proof.
   2:{ cbn. rewrite too_big_spec, Hf by lia. cbn. repeat split; try lia; try (right; reflexivity). left; reflexivity. }
   assert (Htb : too_big c n = false) by (rewrite too_big_spec, Hf by lia; reflexivity).
   assert (Hall : forall sep, (sep = false -> guard_on c = true) ->
-     layout_fine c sep n (request c sep n) = true /\ request c sep n < W /     (if sep then n + G c <= request c sep n else n + G c <= with_guard c n /\ with_guard c n mod 8 = 0 /\ with_guard c n + node_size c = request c sep n) /     (forall k ok, call_ok c n (k, request c sep n, ok) = true)).
+     layout_fine c sep n (request c sep n) = true /\ request c sep n < W /\ (if sep then n + G c <= request c sep n else n + G c <= with_guard c n /\ with_guard c n mod 8 = 0 /\ with_guard c n + node_size c = request c sep n) /\ (forall k ok, call_ok c n (k, request c sep n, ok) = true)).
   { intros sep Hsg. destruct (layout_fine_fits c sep n Hc Hf Hsg) as (HL & HW & Hlay). cbv zeta in HL, HW, Hlay.
     repeat split; try assumption. intros. unfold call_ok. cbn [fst snd]. apply orb_true_iff. right. apply N.leb_le.
     destruct sep; [exact Hlay|]. destruct Hlay as (H1 & H2 & H3). lia. }
